@@ -118,7 +118,6 @@ def run_real(p):
     m.fit(X, y, Xv, yv)
     if not hasattr(m, 'temperature_tuning_results_'):
         return None
-    stored = m.split_temperature
     metric = Metric.from_name(p['metric'])
     if p['task'] == 'reg':
         y_num = yv.float().reshape(-1, 1)
@@ -126,6 +125,13 @@ def run_real(p):
     else:
         y_num = m.class_converter_.labels_to_numerical(yv)
         y_cls = m.class_converter_.numerical_to_labels(y_num)
+    if p.get('cut_trees') and len(m.trees) > 1:
+        # an ensemble that holds fewer trees than configured (what a time-limited fit leaves behind), tuned again through
+        # the public fit_temperature: scores are those of the trees that exist
+        m.trees = m.trees[:1]
+        m.split_temperature = p.get('ctor_temp')
+        m.fit_temperature(Xv, y_num, list(p['cands']))
+    stored = m.split_temperature
     true_scores = []
     for c in p['cands']:
         m.split_temperature = attr_of(float(c))
@@ -242,6 +248,8 @@ def gen_cases(run):
                           method=r.choice(['random', 'pca', 'top_vector_agop_on_subset']), trees=r.choice([1, 1, 2]),
                           classes=r.choice([2, 3]), mode=r.choice(['zero_one', 'prevalence']), dseed=r.randint(0, 10 ** 6),
                           ctor_temp=r.choice([None, None, 0.5])))
+        if i % 3 == 2:
+            cases[-1].update(trees=3, cut_trees=True)
     return cases
 
 
